@@ -1,6 +1,7 @@
 package p03
 
 import (
+	"unicode/utf8"
 	"bytes"
 	"encoding/csv"
 	"fmt"
@@ -629,6 +630,100 @@ func judgeReduceRows(s *Spec, a *Agg, body string) *finding {
 	for _, gk := range sortedKeys(a.reduce) {
 		if !seen[gk] {
 			return bad("group %q is missing from the screen", a.reduceParts[gk])
+		}
+	}
+	return nil
+}
+
+// judgeSparkRows: same idea for `spark`: plain row and column keys, every row fits (--num), columns in a name-based
+// --sort-cols order (text ascending or descending); the displayed columns are the last --cols of that order. Each row
+// line is "row first glyphs last": first / last are the reference cells of the first / last displayed column (absent =
+// 0), and the glyph run has one cell per displayed column. The glyph heights are C14's business.
+func sparkColOrder(s *Spec, a *Agg) ([]string, bool) {
+	mode := ""
+	for i, f := range s.CmdArgs {
+		if f == "--sort-cols" && i+1 < len(s.CmdArgs) {
+			mode = s.CmdArgs[i+1]
+		}
+	}
+	cols := sortedKeys(a.cols)
+	switch mode {
+	case "text", "text:asc":
+	case "text:desc", "text:reverse":
+		for i, j := 0, len(cols)-1; i < j; i, j = i+1, j-1 {
+			cols[i], cols[j] = cols[j], cols[i]
+		}
+	default:
+		return nil, false
+	}
+	if s.Cols < 1 {
+		return nil, false
+	}
+	if len(cols) > s.Cols {
+		cols = cols[len(cols)-s.Cols:]
+	}
+	return cols, true
+}
+
+func sparkRowsApplicable(s *Spec, a *Agg) bool {
+	if s.Cmd != "spark" || len(a.cols) == 0 || len(a.rows) == 0 || len(a.rows) > s.N {
+		return false
+	}
+	if !allPlain(sortedKeys(a.cols)) || !allPlain(sortedKeys(a.rows)) {
+		return false
+	}
+	_, ok := sparkColOrder(s, a)
+	return ok
+}
+
+func judgeSparkRows(s *Spec, a *Agg, body string) *finding {
+	if !sparkRowsApplicable(s, a) {
+		return nil
+	}
+	cols, _ := sparkColOrder(s, a)
+	bad := func(f string, args ...any) *finding {
+		return &finding{"snapshot-vs-reference", fmt.Sprintf(f, args...) + "; screen " + run.Q(body)}
+	}
+	lines := strings.Split(strings.TrimSuffix(body, "\n"), "\n")
+	lines = lines[:len(lines)-1] // summary
+	if len(lines) == 0 {
+		return bad("sparkline screen has no header")
+	}
+	if h := strings.Fields(lines[0]); len(h) < 2 || h[0] != "First" || h[len(h)-1] != "Last" {
+		return bad("sparkline header %s is not 'First .. Last'", run.Q(lines[0]))
+	}
+	seen := map[string]bool{}
+	for _, ln := range lines[1:] {
+		f := strings.Fields(ln)
+		if len(f) == 0 {
+			continue
+		}
+		if len(f) != 4 {
+			return bad("sparkline row %s is not 'row first glyphs last'", run.Q(ln))
+		}
+		name := f[0]
+		if seen[name] {
+			return bad("row %s is on the screen twice", run.Q(name))
+		}
+		seen[name] = true
+		if !a.rows[name] {
+			return bad("screen has row %s that no input line produced", run.Q(name))
+		}
+		first := a.cells[[2]string{cols[0], name}]
+		last := a.cells[[2]string{cols[len(cols)-1], name}]
+		if strings.ReplaceAll(f[1], ",", "") != strconv.FormatInt(first, 10) {
+			return bad("row %s: First is %s, reference cell (col %s) is %d", run.Q(name), f[1], run.Q(cols[0]), first)
+		}
+		if strings.ReplaceAll(f[3], ",", "") != strconv.FormatInt(last, 10) {
+			return bad("row %s: Last is %s, reference cell (col %s) is %d", run.Q(name), f[3], run.Q(cols[len(cols)-1]), last)
+		}
+		if n := utf8.RuneCountInString(f[2]); n != len(cols) {
+			return bad("row %s: %d sparkline cells for %d displayed columns %q", run.Q(name), n, len(cols), cols)
+		}
+	}
+	for _, r := range sortedKeys(a.rows) {
+		if !seen[r] {
+			return bad("row %s is missing from the screen", run.Q(r))
 		}
 	}
 	return nil
